@@ -36,6 +36,13 @@ import (
 	"github.com/oxia-db/oxia/common/metric"
 )
 
+// The byte-wise key shortening done by pebble.DefaultComparer's Separator and
+// Successor is not valid under the slash order: e.g. Separator("a.b", "a0")
+// would be "a/", which sorts after "a0". Returning the key unchanged is always
+// a valid separator/successor.
+func slashSeparator(dst, a, _ []byte) []byte { return append(dst, a...) }
+func slashSuccessor(dst, a []byte) []byte    { return append(dst, a...) }
+
 var (
 	OxiaSlashSpanComparer = &pebble.Comparer{
 		Compare:            compare.CompareWithSlash,
@@ -43,9 +50,9 @@ var (
 		AbbreviatedKey:     compare.AbbreviatedKeyDisableSlash,
 		FormatKey:          pebble.DefaultComparer.FormatKey,
 		FormatValue:        pebble.DefaultComparer.FormatValue,
-		Separator:          pebble.DefaultComparer.Separator,
+		Separator:          slashSeparator,
 		Split:              pebble.DefaultComparer.Split,
-		Successor:          pebble.DefaultComparer.Successor,
+		Successor:          slashSuccessor,
 		ImmediateSuccessor: pebble.DefaultComparer.ImmediateSuccessor,
 		Name:               "oxia-slash-spans",
 	}
